@@ -574,7 +574,7 @@ func c10R4(c *Ctx) {
 	}
 
 	// builders: functions that call cook
-	cook := p.Method(modPath, "Message", "cook")
+	cook := p.cookFn()
 	fmWrite := p.Method(modPath, "FieldMap", "write")
 	for _, cs := range p.CallsTo(cook) {
 		fn := cs.Fn
@@ -632,10 +632,11 @@ func sumTerms(o *Org, out *[]string) {
 
 func c10R5(c *Ctx) {
 	p := c.P
-	cook := p.Method(modPath, "Message", "cook")
+	cook := p.cookFn()
 	name := FuncName(cook)
 	t9, t10 := p.Tag("tagBodyLength"), p.Tag("tagCheckSum")
 	var lenSet, sumSet bool
+	var fcs *ssa.Function
 	for _, cl := range Calls(cook) {
 		cc := cl.Common()
 		switch callName(cc) {
@@ -657,7 +658,8 @@ func c10R5(c *Ctx) {
 				vo := p.Origin(cc.Args[2])
 				ok := false
 				var terms []string
-				if vo.IsCallTo("formatCheckSum") && len(vo.Args) == 1 {
+				if vo.Kind == "call" && vo.Callee != nil && p.InModule(vo.Callee) && len(vo.Args) == 1 {
+					fcs = vo.Callee
 					a := vo.Args[0]
 					if a.Kind == "binop" && a.Op == token.REM && a.Y.IsConstInt(256) {
 						sumTerms(a.X, &terms)
@@ -679,8 +681,11 @@ func c10R5(c *Ctx) {
 		c.Violation(name, p.Pos(cook.Pos()), "checksum-missing", "cook does not set CheckSum (tag 10) through SetString")
 	}
 	// formatCheckSum: zero padded width 3
-	fcs := p.Func(modPath, "formatCheckSum")
 	okFmt := false
+	if fcs == nil {
+		c.Violation(name, p.Pos(cook.Pos()), "checksum-formatter", "CheckSum is not produced by a formatting helper")
+		return
+	}
 	for _, cl := range Calls(fcs) {
 		if callName(cl.Common()) == "fmt.Sprintf" {
 			if s, ok := p.Origin(cl.Common().Args[0]).ConstStringVal(); ok && s == "%03d" {
